@@ -183,6 +183,45 @@ def shard_text(hs):
             "Definition M := Eval vm_compute in mismatches cases.\nPrint M.\n" % body)
 
 
+def shrink(binp, workdir, cmds, kind, own_prefix, budget=250):
+    """Greedy one-at-a-time removal of commands (and of transaction operations) re-running the
+    implementation: keep a removal when the same oracle kind still fails."""
+    def fails(cs):
+        f = os.path.join(workdir, "shrink.json")
+        json.dump({"cmds": cs}, open(f, "w"))
+        rc, out = vlib.sh([binp, "-replay", f], timeout=120)
+        if rc != 0:
+            return False
+        try:
+            h = json.loads(out.strip().split("\n")[-1])
+        except Exception:
+            return False
+        return any(o.split(": ", 1)[1].startswith(own_prefix + ":" + kind) for o in h["oracle"])
+    cur = list(cmds)
+    if not fails(cur):
+        return cmds
+    n = 0
+    i = len(cur) - 1
+    while i >= 0 and n < budget:
+        cand = cur[:i] + cur[i + 1:]
+        n += 1
+        if cand and fails(cand):
+            cur = cand
+        i -= 1
+    # shrink transactions
+    for i, c in enumerate(cur):
+        if c["kind"] == "txn" and len(c.get("ops") or []) > 1:
+            j = len(c["ops"]) - 1
+            while j >= 0 and n < budget:
+                c2 = dict(c); c2["ops"] = c["ops"][:j] + c["ops"][j + 1:]
+                cand = cur[:i] + [c2] + cur[i + 1:]
+                n += 1
+                if c2["ops"] and fails(cand):
+                    cur, c = cand, c2
+                j -= 1
+    return cur
+
+
 def run_store_check(ctx, prop, prop_file, n_quick, n_thorough, own_prefix, extra_trusted, rule):
     """Common driver: proof stage, harness run, Coq comparison, oracle verdicts for `own_prefix`."""
     info, ok = vlib.proof_stage(ctx, prop_file, ["Run/Store.v"])
@@ -248,10 +287,36 @@ def run_store_check(ctx, prop, prop_file, n_quick, n_thorough, own_prefix, extra
             ctx.known(f, f["what"])
         else:
             unknown.append((h, o, sig))
-    for h, o, sig in unknown[:3]:
+    seen_kinds = set()
+    for h, o, sig in unknown:
+        if sig["kind"] in seen_kinds or len(seen_kinds) >= 3:
+            continue
+        seen_kinds.add(sig["kind"])
         step = int(o.split(":")[0].split()[1])
-        ctx.violation({"kind": "oracle", "reason": o, "signature": sig, "cmds": h["cmds"][:step + 1],
-                       "results": h["results"][:step + 1], "replay_cmd": "build/bin/store -replay <this file>"})
+        small = shrink(binp, ctx.workdir, h["cmds"][:step + 1], sig["kind"], own_prefix)
+        ctx.violation({"kind": "oracle", "reason": o, "signature": sig, "cmds": small,
+                       "original_length": step + 1, "replay_cmd": "build/bin/store -replay <this file>"})
+    if mism and not unknown:
+        # correspondence broken but the oracle was silent on the generated histories: search harder
+        # (8x more histories from another seed, oracle only) for a concrete failing history
+        out2 = os.path.join(ctx.workdir, "hist_search.jsonl")
+        vlib.sh([binp, "-seed", str(ctx.seed + 7919), "-tier", ctx.tier, "-n", str(8 * n), "-out", out2], timeout=3000)
+        found = []
+        for l in open(out2):
+            h2 = json.loads(l)
+            for o in h2["oracle"]:
+                tag = o.split(": ", 1)[1]
+                if tag.startswith(own_prefix + ":") and not vlib.match_known(prop, {"kind": tag.split(":")[1]}):
+                    found.append((h2, o, {"kind": tag.split(":")[1]}))
+        cov_search = {"extra_histories": 8 * n, "found": len(found)}
+        ctx.notes.append(cov_search)
+        for h2, o, sig in found[:1]:
+            step = int(o.split(":")[0].split()[1])
+            small = shrink(binp, ctx.workdir, h2["cmds"][:step + 1], sig["kind"], own_prefix)
+            ctx.violation({"kind": "oracle", "reason": o, "signature": sig, "cmds": small, "original_length": step + 1,
+                           "found_by": "extended search after a correspondence mismatch",
+                           "replay_cmd": "build/bin/store -replay <this file>"})
+        unknown = found
     if mism and not unknown:
         h = mism[0]
         ctx.violation({"kind": "correspondence", "theorem": "Run.Store.check (model run = implementation results and final store)",
